@@ -57,7 +57,7 @@ def params(thorough):
                 "FullBits": 3, "Leaves": ALL_LEAVES, "InnerLeaves": ["u1", "s3", "e2", "f3", "se2"], "SibLeaves": ALL_LEAVES,
                 "FlexOffs": [0, 2], "FlexPads": [0, 1], "EnumClasses": ENUM_CLASSES}
     return {"MaxBits": 8, "MaxFields": 3, "NestedMaxFields": 2, "MaxNested": 1, "InnerMaxFields": 2, "MaxArr": 3,
-            "FullBits": 3, "Leaves": ALL_LEAVES, "InnerLeaves": ["u1", "s2", "e2", "f3"], "SibLeaves": ALL_LEAVES,
+            "FullBits": 3, "Leaves": ALL_LEAVES, "InnerLeaves": ["u1", "s2", "e2", "f3"], "SibLeaves": ["u1", "s3", "e2", "se2"],
             "FlexOffs": [0, 2], "FlexPads": [0, 1], "EnumClasses": ENUM_CLASSES}
 
 
@@ -1102,7 +1102,7 @@ def run(ctx):
     from concurrent.futures import ThreadPoolExecutor
     small = dict(p, MaxFields=2, NestedMaxFields=0, MaxNested=0, MaxBits=6, InnerLeaves=["u1"], Leaves=["u1", "s2", "f3"])
     families = [("A", p)] + ([("B", params_b(th))] if th else [])
-    n_rand = 1500 if th else 100
+    n_rand = 1000 if th else 100
     tops, seen = [], set()
     guard = 0
     while len(tops) < n_rand and guard < 100 * n_rand:
